@@ -27,7 +27,7 @@ META = dict(
              "columns longer than the struct/fromfile cut-over other than through a lowered _rowsCutoff"],
     assumptions=["matrices of 5-6 rows x 2 columns, up to 2 matrices per file, up to 2 strings per column of 1-2 (3) numbers",
                  "tall matrices (65535 rows non-BIGMAT, 200000 rows BIGMAT): one column, two one-number strings at symbolic rows anywhere, sparse read"],
-    reach_required=["tall", "dense", "bigmat", "nonbigmat", "bit64", "big-endian", "single", "complex", "two-strings", "skip", "fromfile", "namelist"],
+    reach_required=["op2", "op2-skip", "op2-table", "op2-bit64", "op2-single", "op2-complex", "op2-fromfile", "tall", "dense", "bigmat", "nonbigmat", "bit64", "big-endian", "single", "complex", "two-strings", "skip", "fromfile", "namelist"],
     trusted_base=["z3 5.1", "the OUTPUT4 binary layout as transcribed in checks/op4kit.py"],
 )
 
@@ -201,6 +201,249 @@ def bigrow_fn(endian, bit64, layout, rows):
 
 
 # ---------------------------------------------------------------------------
+# OUTPUT2: data-block framing, matrix decoder / skipper, directory, table records
+
+def _op2_blocks(eng, mtypes, table, concrete=None):
+    """logical content of the file; with `concrete` (a model dict) every solver-chosen integer is taken from it"""
+    from checks import op2kit as K2
+    blocks, cells = [], {}
+
+    def tab(name):
+        # two logical records, one of them split in parts (fixed: every path of the matrix string structure would
+        # otherwise be multiplied by the table's)
+        if name == "tabone":
+            recs = [[[1000, 1001, 1002], [1003, 1004, 1005, 1006]], [[1007, 1008, 1009, 1010, 1011]]]
+        else:
+            recs = [[[2000, 2001, 2002, 2003]], [[2004, 2005, 2006], [2007, 2008, 2009], [2010, 2011, 2012, 2013]]]
+        return dict(kind="table", name=name, records=recs)
+    if table == "first":
+        blocks.append(tab("tabone"))
+    for k, mt in enumerate(mtypes):
+        rich = k == 0
+        tag = "m%d" % k
+        if concrete is None:
+            # first matrix: 5 rows, column 0 with up to 2 strings of up to 2 numbers, column 1 with at most one number;
+            # a further matrix: 2 rows, one column, at most one number (dense reads fork over every start row)
+            sp_, cl = logical(eng, tag, 5 if rich else 2, 1, mt, 2 if rich else 1, 2 if rich else 1, "strings")
+            if rich:
+                sp1, cl1 = logical(eng, tag + "b", 5, 1, mt, 1, 1, "strings")
+                sp_["columns"][1] = sp1["columns"][0]
+                sp_["cols"] = 2
+                cl = cl + [(r, 1, v) for r, _, v in cl1]
+        else:
+            sp_, cl = _logical_concrete(concrete, tag, 5 if rich else 2, 1, mt)
+            if rich:
+                sp1, cl1 = _logical_concrete(concrete, tag + "b", 5, 1, mt)
+                sp_["columns"][1] = sp1["columns"][0]
+                sp_["cols"] = 2
+                cl = cl + [(r, 1, v) for r, _, v in cl1]
+        sp_.update(kind="matrix", hdr_extra=2 if k == 0 else 0)
+        blocks.append(sp_)
+        cells[tag] = cl
+    if table == "last":
+        blocks.append(tab("tabtwo"))
+    return blocks, cells
+
+
+def _logical_concrete(model, tag, rows, cols, mtype):
+    cplx = mtype in (3, 4)
+    columns, cells = {}, []
+    for c in range(cols):
+        ns = int(model.get("%s_ns%d" % (tag, c), 0) or 0)
+        strings = []
+        for k in range(ns):
+            n = int(model.get("%s_n%d_%d" % (tag, c, k), 1) or 1)
+            r0 = int(model.get("%s_r%d_%d" % (tag, c, k), 0) or 0)
+            vals = []
+            for q in range(n):
+                v = ("%s_%d_%d_%d_re" % (tag, c, k, q), "%s_%d_%d_%d_im" % (tag, c, k, q)) if cplx else "%s_%d_%d_%d" % (tag, c, k, q)
+                vals.append(v)
+                cells.append((r0 + q, c, v))
+            strings.append((r0, vals))
+        columns[c] = strings
+    return dict(name=tag, rows=rows, cols=cols, form=2, mtype=mtype, columns=columns), cells
+
+
+def _check_dense2(eng, X, spec, cells, obls, info, what):
+    rows, cols, cplx = spec["rows"], spec["cols"], spec["mtype"] in (3, 4)
+    ok = isinstance(X, np.ndarray) and X.shape == (rows, cols)
+    obls.append(E.Obl("%s: shape %s" % (what, getattr(X, "shape", None)), ok, info=info))
+    if not ok:
+        return
+    want = {}
+    for r, c, v in cells:
+        want[(eng.fork_int(z3.simplify(r)), c)] = K.CTok(*v) if cplx else v
+    good = True
+    for r in range(rows):
+        for c in range(cols):
+            v = X[r, c]
+            if (r, c) in want:
+                good = good and ((v == want[(r, c)]) if cplx else (v is want[(r, c)]))
+            else:
+                good = good and (not isinstance(v, (R.Tok, K.CTok))) and v == 0
+    obls.append(E.Obl("%s: every encoded number is decoded at its (row, column), zeros elsewhere" % what, good, info=info))
+
+
+def op2_fn(endian, bit64, header, mtypes, cutoff, table):
+    def fn(eng):
+        from checks import op2kit as K2
+        S.set_engine(eng)
+        info = dict(op2=True, endian=endian, bit64=bit64, header=header, mtypes=list(mtypes), cutoff=cutoff, table=table)
+        blocks, cells = _op2_blocks(eng, mtypes, table)
+        fields, starts = K2.encode(blocks, endian, bit64, header)
+        pos = [K2.byte_pos(fields, i) for i in starts]
+        obls = []
+        try:
+            o, fh = K2.new_reader(fields)
+            if cutoff is not None:
+                o._rowsCutoff = cutoff
+                eng.tag("op2-fromfile")
+            import sys
+            native = "<" if sys.byteorder == "little" else ">"
+            obls.append(E.Obl("OUTPUT2 format detection: byte order and key width", (o._endian == "=" and endian == native or o._endian == endian) and o._ibytes == (8 if bit64 else 4), info=info))
+            # (a) directory
+            dl = o.dblist
+            obls.append(E.Obl("directory(): every data block once, in file order, with its type (%s)" % [s_.name for s_ in dl],
+                              [s_.name for s_ in dl] == [b["name"].upper() for b in blocks] and [int(s_.dbtype) for s_ in dl] == [1 if b["kind"] == "matrix" else 0 for b in blocks], info=info))
+            obls.append(E.Obl("directory(): byte ranges are exactly the encoded data blocks (%s vs %s)" % ([(s_.start, s_.stop) for s_ in dl], pos),
+                              [(s_.start, s_.stop) for s_ in dl] == list(zip(pos[:-1], pos[1:])), info=info))
+            obls.append(E.Obl("directory(): matrix sizes", all(tuple(s_.size) == (b["rows"], b["cols"]) for s_, b in zip(dl, blocks) if b["kind"] == "matrix"), info=info))
+            for s_, b in zip(dl, blocks):
+                if b["kind"] == "table":
+                    kw = 8 if bit64 else 4
+                    want = [[tuple(part[:3]), len(part) * kw] for parts in b["records"] for part in parts]
+                    obls.append(E.Obl("directory(): table record headers (%s)" % (s_.headers,), [[tuple(h[0]), h[1]] for h in s_.headers] == want, info=info))
+                    eng.tag("op2-table")
+            eng.tag("op2-skip")
+            # (b) all matrices
+            mats = o.rdop2mats()
+            mb = [b for b in blocks if b["kind"] == "matrix"]
+            obls.append(E.Obl("rdop2mats(): one entry per matrix", sorted(mats) == sorted(b["name"].upper() for b in mb), info=info))
+            for b in mb:
+                if b["name"].upper() in mats:
+                    _check_dense2(eng, mats[b["name"].upper()], b, cells[b["name"]], obls, info, "rdop2mats %s" % b["name"])
+            # (c) named subset; the reader ends exactly at the next data block
+            last = mb[-1]
+            sub = o.rdop2mats([last["name"]])
+            obls.append(E.Obl("rdop2mats([name]) returns only that matrix", list(sub) == [last["name"].upper()], info=info))
+            if list(sub) == [last["name"].upper()]:
+                _check_dense2(eng, sub[last["name"].upper()], last, cells[last["name"]], obls, info, "subset read %s" % last["name"])
+            for bi, b in enumerate(blocks):
+                o.set_position(pos[bi])
+                name, trailer, dbtype = o.rdop2nt()
+                obls.append(E.Obl("rdop2nt(): name, trailer, type of block %d" % bi, name == b["name"].upper() and dbtype == (1 if b["kind"] == "matrix" else 0)
+                                  and (b["kind"] != "matrix" or tuple(trailer[1:5]) == (b["cols"], b["rows"], b["form"], b["mtype"])), info=info))
+                if b["kind"] == "matrix":
+                    o.rdop2matrix(trailer)
+                    obls.append(E.Obl("after rdop2matrix the reader is exactly at the next data block (%d vs %d)" % (fh.i, starts[bi + 1]), fh.i == starts[bi + 1], info=info))
+                    o.set_position(pos[bi])
+                    o.rdop2nt()
+                    o.skipop2matrix()
+                    obls.append(E.Obl("after skipop2matrix the reader is exactly at the next data block", fh.i == starts[bi + 1], info=info))
+                else:
+                    got = []
+                    for parts in b["records"]:
+                        flat = [v for part in parts for v in part]
+                        rec = o.rdop2record() if len(got) % 2 == 0 else o.rdop2record(N=len(flat))
+                        got.append(rec)
+                        obls.append(E.Obl("rdop2record(): a record split in %d parts is returned whole (%s)" % (len(parts), None if rec is None else list(rec)),
+                                          rec is not None and [int(v) for v in rec] == flat, info=info))
+                    obls.append(E.Obl("rdop2record() at the end of the table returns None", o.rdop2record() is None, info=info))
+                    obls.append(E.Obl("after the last record the reader is exactly at the next data block", fh.i == starts[bi + 1], info=info))
+        except E.Inconclusive:
+            raise
+        except R.StreamViolation as ex:
+            return obls + [E.Obl("OUTPUT2 reader stays on field boundaries / decodes with the right width, type and byte order: %s" % ex, False, info=info)]
+        except Exception as ex:
+            import traceback
+            return obls + [E.Obl("OUTPUT2 reader raises %r (%s)" % (ex, traceback.format_exc()[-300:]), False, info=info)]
+        eng.tag("op2")
+        if bit64:
+            eng.tag("op2-bit64")
+        if any(m in (1, 3) for m in mtypes):
+            eng.tag("op2-single")
+        if any(m in (3, 4) for m in mtypes):
+            eng.tag("op2-complex")
+        return obls
+    return fn
+
+
+def replay_op2(p):
+    import os
+    import tempfile
+    from checks import op2kit as K2
+    from pyyeti.nastran import op2
+    blocks, cells = _op2_blocks(None, p["mtypes"], p["table"], concrete=p["model"])
+    fields, starts = K2.encode(blocks, p["endian"], p["bit64"], p["header"])
+    pos = [K2.byte_pos(fields, i) for i in starts]
+    vals = {}
+
+    def tokval(name):
+        return vals.setdefault(name, float(len(vals) + 1))
+    data = K2.to_bytes(fields, tokval)
+    d = tempfile.mkdtemp(prefix="verif-c11-")
+    path = os.path.join(d, "t.op2")
+    msgs = []
+    try:
+        with open(path, "wb") as f:
+            f.write(data)
+        try:
+            with op2.OP2(path) as o:
+                if p.get("cutoff") is not None:
+                    o._rowsCutoff = p["cutoff"]
+                dl = o.dblist
+                if [s_.name for s_ in dl] != [b["name"].upper() for b in blocks]:
+                    msgs.append("directory names %s, encoded %s" % ([s_.name for s_ in dl], [b["name"].upper() for b in blocks]))
+                if [(s_.start, s_.stop) for s_ in dl] != list(zip(pos[:-1], pos[1:])):
+                    msgs.append("directory byte ranges %s, encoded %s" % ([(s_.start, s_.stop) for s_ in dl], pos))
+                mats = o.rdop2mats()
+                for b in blocks:
+                    if b["kind"] != "matrix":
+                        continue
+                    cplx = b["mtype"] in (3, 4)
+                    A = np.zeros((b["rows"], b["cols"]), complex if cplx else float)
+                    for r, c, v in cells[b["name"]]:
+                        A[r, c] = complex(tokval(v[0]), tokval(v[1])) if cplx else tokval(v)
+                    X = mats.get(b["name"].upper())
+                    if X is None or X.shape != A.shape or not np.array_equal(X, A):
+                        msgs.append("matrix %s decoded as %s, encoded %s" % (b["name"], None if X is None else X.tolist(), A.tolist()))
+                for bi, b in enumerate(blocks):
+                    o.set_position(pos[bi])
+                    name, trailer, dbtype = o.rdop2nt()
+                    if b["kind"] == "matrix":
+                        o.rdop2matrix(trailer)
+                        if o._fileh.tell() != pos[bi + 1]:
+                            msgs.append("after rdop2matrix(%s) the reader is at byte %d, the next data block starts at %d" % (b["name"], o._fileh.tell(), pos[bi + 1]))
+                        o.set_position(pos[bi])
+                        o.rdop2nt()
+                        o.skipop2matrix()
+                        if o._fileh.tell() != pos[bi + 1]:
+                            msgs.append("after skipop2matrix(%s) the reader is at byte %d, the next data block starts at %d" % (b["name"], o._fileh.tell(), pos[bi + 1]))
+                    else:
+                        for k, parts in enumerate(b["records"]):
+                            flat = [v for part in parts for v in part]
+                            rec = o.rdop2record() if k % 2 == 0 else o.rdop2record(N=len(flat))
+                            if rec is None or [int(v) for v in rec] != flat:
+                                msgs.append("table record %d read as %s, encoded %s" % (k, None if rec is None else list(rec), flat))
+        except Exception as ex:
+            msgs.append("reader raises %r" % (ex,))
+        if msgs:
+            return True, "OUTPUT2 file (%s-endian, %s-bit keys, mtypes %s, cutoff %s): %s" % (p["endian"], 64 if p["bit64"] else 32, p["mtypes"], p.get("cutoff"), "; ".join(msgs[:3]))
+        return False, "OUTPUT2 file decoded correctly by the real reader"
+    finally:
+        import shutil
+        shutil.rmtree(d, ignore_errors=True)
+
+
+def job_op2(endian, bit64, header, mtypes, cutoff, table):
+    eng = E.Engine()
+    res = eng.explore(op2_fn(endian, bit64, header, mtypes, cutoff, table), max_cex=2)
+    res["note"] = "op2 %s-endian %d-bit header=%s mtypes=%s cutoff=%s table=%s" % (endian, 64 if bit64 else 32, header, mtypes, cutoff, table)
+    H.triage(res, "op2", replay_op2, lambda c: dict(op2=True, endian=endian, bit64=bit64, header=header, mtypes=list(mtypes), cutoff=cutoff, table=table, model=c["model"]))
+    return res
+
+
+# ---------------------------------------------------------------------------
 # replay: write the same physical file with a stand-alone struct encoder and read it with the real module
 
 def _concrete_file(model, endian, bit64, layout, mtypes, path, bigrows=None):
@@ -308,7 +551,7 @@ def replay(p):
         shutil.rmtree(d, ignore_errors=True)
 
 
-REPLAY = {"read": replay}
+REPLAY = {"read": replay, "op2": replay_op2}
 
 
 def job_bigrow(endian, bit64, layout, rows):
@@ -352,6 +595,12 @@ def jobs(tier, seed):
     for endian, bit64 in (("<", False), (">", True), ("<", True), (">", False)):
         out.append(H.Job("tall-nonbigmat-%s%s" % (endian, 64 if bit64 else 32), job_bigrow, endian, bit64, "nonbigmat", 65535, weight=5))
         out.append(H.Job("tall-bigmat-%s%s" % (endian, 64 if bit64 else 32), job_bigrow, endian, bit64, "bigmat", 200000, weight=5))
+    o2 = [("<", False, False, (2,), None, None), (">", False, True, (1,), None, "first"), ("<", True, False, (2, 1), None, "last"), (">", True, False, (4,), None, None),
+          ("<", False, True, (3, 2), None, "first"), ("<", True, False, (1,), 1, None), (">", False, False, (2,), 1, None), (">", True, False, (3,), 1, "last")]
+    if not q:
+        o2 += [(e, b, False, m, cut, t) for e in "<>" for b in (False, True) for m in ((1,), (2,), (3,), (4,), (2, 4), (1, 3)) for cut, t in ((None, "first"), (1, "last"))]
+    for c in o2:
+        out.append(H.Job("op2-%s%s-%s-%s-%s-%s" % (c[0], 64 if c[1] else 32, "hdr" if c[2] else "nohdr", "".join(map(str, c[3])), c[4], c[5]), job_op2, *c, weight=20 * len(c[3])))
     for c in combos:
         out.append(H.Job("read-%s%s-%s-%s-%s-%s" % (c[0], 64 if c[1] else 32, c[2], "".join(map(str, c[3])), c[4], c[5]), job, *c,
                          split_depth=5 if len(c[3]) > 1 else None, weight=30 * len(c[3]) ** 3))
